@@ -356,7 +356,9 @@ func (d *dirtyPlugin) PreWriteReply(c erpc.WriteCtx) *erpc.Status {
 }
 
 func c20CheckClean(e *world.Env, ctxSwap, sessSwap int, where string) {
-	if ctxSwap != sessSwap {
+	// the context's swap is a copy of the session's taken when the reader set the context up (the session's may
+	// have grown since): more entries than the session has can only be leftovers of an earlier user
+	if ctxSwap > sessSwap {
 		e.Fail("C20/context-swap-not-fresh", "%s: a handler context starts with %d swap entries although the session swap has %d", where, ctxSwap, sessSwap)
 	}
 }
@@ -452,9 +454,14 @@ func runC20System(t *testing.T, seed uint64, m *Mask, opt world.Options, r *simr
 		var sessions []erpc.Session
 		var conns []*simnet.Conn
 		for i := 0; i < nSess; i++ {
-			s, _, ca, _ := e.ServePair(cli, srv, pf, pf)
+			s, ssrv, ca, _ := e.ServePair(cli, srv, pf, pf)
 			sessions = append(sessions, s)
 			conns = append(conns, ca)
+			// some sessions carry application data in their swap: each message context starts with a private copy
+			if e.Gen.Chance(0.5) {
+				ssrv.Swap().Store("session-owner", fmt.Sprintf("user%d", i))
+				s.Swap().Store("session-owner", fmt.Sprintf("user%d", i))
+			}
 		}
 		type call struct {
 			tag  string
